@@ -285,6 +285,7 @@ void sx_on_quiescent(void)
 	int i, j;
 
 	sx_cover("wait.quiescent");
+	sx_leak_check_unreachable();	/* C18: nothing the library allocated has been lost track of */
 	/* a child spawned through the library is never missed, however quickly it exits */
 	for (i = 0; i < nC; i++) {
 		if (!C[i].spawned || !C[i].registered)
@@ -348,8 +349,10 @@ void sx_main(void)
 	} else
 	for (i = 0; i < nC; i++) {
 		C[i].id = i;
-		if (i < nC - nstr) {
-			if (sx_opt("spawn", 0) && i == 0) {
+		/* strangers are the youngest children, or (strangerfirst) the oldest: the kernel hands out
+		 * pending statuses oldest child first */
+		if (sx_opt("strangerfirst", 0) ? i >= nstr : i < nC - nstr) {
+			if (sx_opt("spawn", 0) && i == (sx_opt("strangerfirst", 0) ? nstr : 0)) {
 				do_register(&C[i], 1);
 			} else {
 				C[i].pid = p_new_child();
